@@ -225,9 +225,9 @@ def load_known():
             ln = ln.strip()
             if not ln or ln.startswith('#'):
                 continue
-            m = re.match(r'known:\s+property=(\S+)\s+clause=(\S+)\s+::\s*(.*)', ln)
+            m = re.match(r'known:\s+property=(\S+)\s+clause=("[^"]*"|\S+)\s+::\s*(.*)', ln)
             if m:
-                known.append(dict(prop=m.group(1), clause=m.group(2), text=m.group(3)))
+                known.append(dict(prop=m.group(1), clause=m.group(2).strip('"'), text=m.group(3)))
                 continue
             m = re.match(r'fixed:\s+property=(\S+)\s+(\S+)\s+(.*)', ln)
             if m:
